@@ -258,6 +258,9 @@ def _registry():
     reg('remove_regions', L + 'remove_regions', lab_gen, lambda f, a: f(a['labeled'], [1]))
     reg('remove_regions_arr', L + 'remove_regions', lambda g: dict(labeled=g.lab(g.shape(2, 3)), regions=np.array([[1, 2], [2, 1]])),
         lambda f, a: f(a['labeled'], a['regions']))
+    # an unsorted native-int array of region ids: the wrapper sorts/uniques a COPY, never the caller's array
+    reg('remove_regions_arr32', L + 'remove_regions', lambda g: dict(labeled=g.lab(g.shape(2, 3)), regions=np.array(g.r.sample([4, 1, 3, 2, 0], 3), np.intc)),
+        lambda f, a: f(a['labeled'], a['regions']))
     reg('remove_regions_where', L + 'remove_regions_where',
         lambda g: dict(labeled=g.lab(g.shape(2, 3)), conditions=np.array([False, True, False, True])),
         lambda f, a: f(a['labeled'], a['conditions']))
